@@ -281,6 +281,21 @@ def ratio_checked_div(it, a, b):
     return ratio(simp(n), simp(d))
 
 
+def ratio_arith(it, op, a, b, ty='i32'):
+    """num-rational arith_impl! (Add / Sub / Rem on Ratio<T>): UNCHECKED arithmetic in T (panics on overflow in debug builds)"""
+    (an, ad), (bn, bd) = a.f, b.f
+    w = INT_TYPES[ty][0]
+    if it.branch(it.binop('Eq', ad, bd, ty)):
+        return ratio_new(it, i32_op(it, op, an, bn, ty), bd, ty)
+    g = gcd32(it, ad, bd, w)
+    # lcm = (ad * (bd / g)).abs()
+    l = i32_op(it, 'Mul', ad, i32_op(it, 'Div', bd, g, ty), ty)
+    if it.branch(it.binop('Lt', l, 0, ty)): l = i32_op(it, 'Sub', 0, l, ty)
+    ln = i32_op(it, 'Mul', an, i32_op(it, 'Div', l, ad, ty), ty)
+    rn = i32_op(it, 'Mul', bn, i32_op(it, 'Div', l, bd, ty), ty)
+    return ratio_new(it, i32_op(it, op, ln, rn, ty), l, ty)
+
+
 def ratio_cmp(it, a, b):
     """exact comparison (the contract of num-rational's Ord, whose algorithm avoids overflow)"""
     (an, ad), (bn, bd) = a.f, b.f
@@ -334,6 +349,33 @@ def install(prog):
     def _(it, m, a):
         c = big_cmp(it, deref(a[0]), deref(a[1]))
         return {'lt': c < 0, 'le': c <= 0, 'gt': c > 0, 'ge': c >= 0}[m.group(1)]
+    # the generic `<T as PartialOrd>::lt` fall-back of models_core is registered earlier: exact entries take precedence
+    for _k in ('lt', 'le', 'gt', 'ge'):
+        prog.exact['<BigInt as PartialOrd>::' + _k] = (lambda k: lambda it, m, a: {'lt': lambda c: c < 0, 'le': lambda c: c <= 0, 'gt': lambda c: c > 0, 'ge': lambda c: c >= 0}[k](big_cmp(it, deref(a[0]), deref(a[1]))))(_k)
+
+    @M(r'<Ratio<(i32|BigInt)> as (?:num::|num_traits::)?FromPrimitive>::from_f64')
+    def _(it, m, a):
+        """continued-fraction approximation of a double: None for NaN / infinities / out of range, else SOME reduced ratio
+        (its value is not modelled: fresh numerator and positive denominator)"""
+        x = deref(a[0])
+        it.fresh_n += 1
+        tag = '%d_%d' % (len(it.taken), it.fresh_n)
+        if is_sym(x):
+            if it.branch(z3.Or(z3.fpIsNaN(x), z3.fpIsInf(x))): return mk_none()
+        elif x != x or x in (float('inf'), float('-inf')): return mk_none()
+        if it.choose(2) == 1: return mk_none()                   # not representable in the target type
+        if m.group(1) == 'i32':
+            n = z3.BitVec('fromf64_n_' + tag, 32); d = z3.BitVec('fromf64_d_' + tag, 32)
+            it.assume(d > 0)
+            return mk_some(ratio(n, d))
+        n = z3.BitVec('fromf64_n_' + tag, BW); d = z3.BitVec('fromf64_d_' + tag, BW)
+        it.assume(z3.And(d > 0, d <= (1 << 66), n >= -(1 << 66), n <= (1 << 66)))
+        return mk_some(Agg('BigRatio', None, [Big(n), Big(d)]))
+
+    @M(r'Ratio::<BigInt>::(numer|denom)')
+    def _(it, m, a):
+        r = deref(a[0])
+        return Ref(Cell(r.f[0 if m.group(1) == 'numer' else 1]))
 
     @M(r'<BigInt as PartialEq>::(eq|ne)|<&?Rc<BigInt> as PartialEq>::(eq|ne)')
     def _(it, m, a):
@@ -381,6 +423,25 @@ def install(prog):
     # ---- Ratio<i32> -----------------------------------------------------------------------------
     @M(r'Ratio::<i32>::from_integer|<Ratio<i32> as From<i32>>::from')
     def _(it, m, a): return ratio(a[0], 1)
+
+    @M(r'<&?Ratio<(i32|i64)> as (Add|Sub|Rem)(?:<&?Ratio<(?:i32|i64)>>)?>::(?:add|sub|rem)')
+    def _(it, m, a): return ratio_arith(it, m.group(2), deref(a[0]), deref(a[1]), m.group(1))
+
+    @M(r'<&?Ratio<(i32|i64)> as Div(?:<&?Ratio<(?:i32|i64)>>)?>::div')
+    def _(it, m, a):
+        # num-rational Div: unchecked; Ratio::new(an/g_ac * (bd/g_bd), ad/g_bd * (bn/g_ac))
+        ty = m.group(1); w = INT_TYPES[ty][0]
+        (an, ad), (bn, bd) = deref(a[0]).f, deref(a[1]).f
+        g_ac = gcd32(it, an, bn, w); g_bd = gcd32(it, ad, bd, w)
+        n = i32_op(it, 'Mul', i32_op(it, 'Div', an, g_ac, ty), i32_op(it, 'Div', bd, g_bd, ty), ty)
+        d = i32_op(it, 'Mul', i32_op(it, 'Div', ad, g_bd, ty), i32_op(it, 'Div', bn, g_ac, ty), ty)
+        return ratio_new(it, n, d, ty)
+
+    @M(r'Ratio::<i64>::from_integer|<Ratio<i64> as From<i64>>::from')
+    def _(it, m, a): return ratio(a[0], 1)
+
+    @M(r'<Ratio<i64> as From<\(i64, i64\)>>::from')
+    def _(it, m, a): return ratio_new(it, a[0].f[0], a[0].f[1], 'i64')
 
     @M(r'Ratio::<(i32|i64)>::new')
     def _(it, m, a): return ratio_new(it, a[0], a[1], m.group(1))
